@@ -628,6 +628,10 @@ func main() {
 
 	seq := 0
 	nextSeq := func() int { seq++; return seq }
+	tStart := time.Now()
+	lap := func(what string) {
+		fmt.Fprintf(os.Stderr, "c04: %s done at %.1fs\n", what, time.Since(tStart).Seconds())
+	}
 
 	// ---- bounded-exhaustive: op sequences over 2 keys with COMPACT and COMMIT as letters.
 	// letters: W(k,nonempty) W(k,empty) D(k) for k in {0,1}; C (compact); M (commit)
@@ -642,7 +646,11 @@ func main() {
 		t := newTwin("memory", "")
 		n, run := 0, 0
 		idx := make([]int, maxLen)
-		for L := 2; L <= maxLen; L++ {
+		maxL := maxLen
+		if algo == 1 {
+			maxL = maxLen - 1 // the longest length only for Compact2 (the algorithm the volume server uses); every history costs 3-4 fsyncs
+		}
+		for L := 2; L <= maxL; L++ {
 			for i := range idx {
 				idx[i] = 0
 			}
@@ -708,17 +716,18 @@ func main() {
 		t.close()
 		r.Count(fmt.Sprintf("exhaustive_histories_algo%d", algo), int64(run))
 	}
-	r.Note("exhaustive", fmt.Sprintf("all op sequences of length <=%d over letters {W(k0,nonempty),W(k0,empty),D(k0),W(k1),D(k1),COMPACT,COMMIT} that contain exactly one COMPACT before exactly one COMMIT and a write before the commit; both algorithms", maxLen))
+	r.Note("exhaustive", fmt.Sprintf("all op sequences of length <=%d over letters {W(k0,nonempty),W(k0,empty),D(k0),W(k1),D(k1),COMPACT,COMMIT} that contain exactly one COMPACT before exactly one COMMIT and a write before the commit; both algorithms (Compact: one op shorter)", maxLen))
 
+	lap("exhaustive")
 	// ---- random phased histories
-	nh := r.Pick(200, 3000)
+	nh := r.Pick(120, 1000)
 	volTtls := []string{"", "1m", "3h"}
 	needleTtls := []string{"", "", "1m", "3h"}
 	tss := []string{"zero", "past", "now"}
 	twins := map[string]*twin{}
 	for h := 0; h < nh && r.Violations() < 20; h++ {
 		rng := r.SubRng(fmt.Sprintf("c04-rand-%d", h))
-		c := hcase{Kind: "memory", VolTtl: volTtls[h%3], Algo: 1 + (h/3)%2, NKeys: r.Pick(4, 6), Reload: h%2 == 0}
+		c := hcase{Kind: "memory", VolTtl: volTtls[h%3], Algo: 1 + (h/3)%2, NKeys: r.Pick(4, 6), Reload: h%3 == 0}
 		if h%10 == 9 {
 			c.Kind = "leveldb"
 		}
@@ -785,8 +794,9 @@ func main() {
 		t.close()
 	}
 
+	lap("random")
 	// ---- concurrent phase
-	nconc := r.Pick(4, 20)
+	nconc := r.Pick(4, 10)
 	for i := 0; i < nconc && r.Violations() < 20; i++ {
 		c := hcase{Kind: "memory", Algo: 1 + i%2, VolTtl: ""}
 		if i%4 == 3 {
@@ -804,6 +814,7 @@ func main() {
 		}
 	}
 
+	lap("concurrent")
 	if r.Counter("commits") == 0 || r.Counter("compared_readable") == 0 || r.Counter("compared_deleted") == 0 {
 		r.Inconclusive("no commit / no readable or deleted key compared")
 	}
